@@ -76,7 +76,8 @@ class Alignment:
             self.alignment_block_length,
             self.mapping_quality,
         )
-        self.tags["cg:Z:"] = self.cigar
+        if self.cigar or "cg:Z:" in self.tags:
+            self.tags["cg:Z:"] = self.cigar
         for k in self.tags.keys():
             line += "\t%s%s" % (k, self.tags[k])
         return line
